@@ -9,8 +9,8 @@
 //	    uploads the planned permanode <key> (its ref must be <refhex>), then the claims
 //	    set dateCreated=<dc> (if any), add tag=a / tag=b (tags ∈ -,a,b,ab), add extra=x<i> …,
 //	    the i-th claim dated d_i (attribute claims before 2020-09-13).  Answer: "ok <anytime|none> <modtime|none>" as the corpus reports them.
-//	q <c|m|C|r> <all|a|b> <limit> <continuehex|->
-//	    Query{Permanode constraint, Sort: CreatedDesc|LastModifiedDesc|CreatedAsc|BlobRefAsc, Limit, Continue}
+//	q <c|m|C|r> <all|a|b|t|n> <limit> <continuehex|->
+//	    Query{constraint: Permanode{} | tag=a | tag=b | CamliType:permanode | and(tag=a, tag=b), Sort: CreatedDesc|LastModifiedDesc|CreatedAsc|BlobRefAsc, Limit, Continue}
 //	    Answer: "ok <i,j,…|-> <continuehex|->" (indices in pn order, "?" for an unknown ref), "err" or "panic".
 //	ar <c|m|C|r> <all|a|b> <limit> <pivothex> [<continuehex>]
 //	    the same with Around=<pivot> (and no continue token unless given).
@@ -222,16 +222,21 @@ func (w *world) query(words []string) string {
 	default:
 		return "bad-op"
 	}
-	pc := &search.PermanodeConstraint{}
+	tagc := func(v string) *search.Constraint {
+		return &search.Constraint{Permanode: &search.PermanodeConstraint{Attr: "tag", Value: v}}
+	}
 	switch words[2] {
 	case "all":
+		q.Constraint = &search.Constraint{Permanode: &search.PermanodeConstraint{}}
 	case "a", "b":
-		pc.Attr = "tag"
-		pc.Value = words[2]
+		q.Constraint = tagc(words[2])
+	case "t":
+		q.Constraint = &search.Constraint{CamliType: schema.TypePermanode}
+	case "n":
+		q.Constraint = &search.Constraint{Logical: &search.LogicalConstraint{Op: "and", A: tagc("a"), B: tagc("b")}}
 	default:
 		return "bad-op"
 	}
-	q.Constraint = &search.Constraint{Permanode: pc}
 	lim, err := strconv.ParseInt(words[3], 10, 32)
 	if err != nil || strconv.FormatInt(lim, 10) != words[3] {
 		return "bad-op"
